@@ -244,6 +244,26 @@ fn transforms(f: &File) -> Vec<(String, File)> {
                 g.rules.push(Rule { name: "pf".into(), params: Some(vec!["p".into()]), when: None, lets: vec![], body: vec![vec![body]] });
                 out.push(("param-rule-literal-arg".into(), g));
             }
+            // two parameters, called with call-site variables that carry the parameters' names the other way round: the
+            // arguments are evaluated at the call site, before any parameter is bound
+            if let Clause::Binary { not: false, q, op, opneg, rhs, some, .. } = &cl {
+                let rhs_ok = match rhs {
+                    Arg::Lit(_) => true,
+                    Arg::Q(_, rq) => !matches!(rq.first(), Some(Part::Var(_)) | Some(Part::This)),
+                    _ => false,
+                };
+                if rhs_ok && !matches!(q.first(), Some(Part::Var(_)) | Some(Part::This)) && s.path.len() == 2 && s.path[1] == 1 {
+                    // only for clauses directly in a rule body (the call-site variables are defined at rule level)
+                    let body = Clause::Binary { not: false, some: *some, q: vec![Part::Var("xa".into())], op: *op, opneg: *opneg, rhs: Arg::Q(false, vec![Part::Var("xb".into())]), msg: None };
+                    let mut g = f.clone();
+                    cnf_at(&mut g, &s.path)[s.li][s.ai] = Clause::Call { not: false, name: "pf2".into(), args: vec![Arg::Q(false, vec![Part::Var("xb".into())]), Arg::Q(false, vec![Part::Var("xa".into())])], msg: None };
+                    // call site: xb holds the left-hand query, xa the right-hand side; parameters (xa, xb) receive (%xb, %xa)
+                    add_let(&mut g, &ScopeRef::Rule(s.path[0]), Let { name: "xb".into(), val: Arg::Q(false, q.clone()) }, false);
+                    add_let(&mut g, &ScopeRef::Rule(s.path[0]), Let { name: "xa".into(), val: rhs.clone() }, false);
+                    g.rules.push(Rule { name: "pf2".into(), params: Some(vec!["xa".into(), "xb".into()]), when: None, lets: vec![], body: vec![vec![body]] });
+                    out.push(("param-rule-two-args-swapped-names".into(), g));
+                }
+            }
             match &cl {
                 Clause::Unary { not: false, q, .. } | Clause::Binary { not: false, q, .. } if !matches!(q.first(), Some(Part::Var(_)) | Some(Part::This)) => {
                     let is_empty = matches!(&cl, Clause::Unary { op: UnOp::Empty, .. });
